@@ -276,6 +276,7 @@ def campaign_c05(seed, tier):
             scs.append(sc_c05_sweep("c05-sweep-%s-%d" % ("active" if active else "none", i // chunk), pairs[i:i + chunk], active))
     for i in range(16 if tier == "quick" else 300):
         scs.append(sc_history("c05-hist-%d" % i, rng.randrange(1 << 30), n=60, wild=0.0 if i % 2 else 0.2))
+    scs.append(sc_onebyte_mapper("c05-onebyte"))
     return scs
 
 
@@ -480,6 +481,7 @@ def campaign_c07(seed, tier):
                                     bridged=(k % 3 == 1)))
         if mtu in MTUS:
             scs.append(sc_c07_misc("c07-misc-%d" % mtu, rng.randrange(1 << 16), mtu))
+            scs.append(sc_onebyte_obs("c07-onebyte-%d" % mtu, mtu))
     for i in range(8 if tier == "quick" else 200):
         scs.append(sc_history("c07-hist-%d" % i, rng.randrange(1 << 30), n=60, wild=0.05, mtu=any_mtu(rng)))
     return scs
@@ -975,3 +977,44 @@ def campaign_c04_linux(seed, tier):
             lines.append("DISC %d" % rng.choice([0, 1]))
         scs.append(Scenario("c04-linux-%d" % i, lines))
     return scs
+
+
+# --------------------------------------------------------------------------- addresses differing in ONE byte
+def flip(addr, i):
+    b = bytearray(addr)
+    b[i] ^= 0x40
+    return bytes(b)
+
+
+def sc_onebyte_mapper(name):
+    """mapper identity is the whole 6-byte real source: stations differing from the active mapper in exactly
+    one byte (each position in turn) are other stations"""
+    s = new_script()
+    for i in range(6):
+        other = flip(M1, i)
+        s.rx(1, reset(M1))
+        s.rx(1, discover(0, M1, gen=1, seq=1))
+        s.rx(1, discover(0, other, gen=2, seq=2))            # must stay unanswered
+        s.rx(1, discover(1, M1, gen=3, seq=3, eth_src=other))  # same real source via another Ethernet source: answered
+        s.rx(1, reset(other))
+        s.rx(1, discover(0, other, gen=4, seq=4))            # released: answered
+        s.rx(1, discover(0, M1, gen=5, seq=5))               # now M1 is the other station
+    return Scenario(name, s.lines)
+
+
+def sc_onebyte_obs(name, mtu=1500):
+    """observations: the filter on the own address and the identity of an observation use all six bytes"""
+    s = new_script(mtu=mtu)
+    s.rx(1, discover(0, M1, gen=1, seq=1))
+    for i in range(6):
+        s.rx(1, probe(X, OWN, X, flip(OWN, i)))              # for another station: never recorded
+    s.rx(1, query(M1, OWN, seq=2))
+    base = probe(X, OWN, PEER, OWN)
+    s.rx(1, base)
+    for i in range(6):
+        s.rx(1, probe(flip(X, i), OWN, PEER, OWN))           # other Ethernet source: a distinct observation
+        s.rx(1, probe(X, OWN, flip(PEER, i), OWN))           # other real source: a distinct observation
+    s.rx(1, base)                                            # identical repeat
+    s.drain(1, query(M1, OWN, seq=3), 4)
+    s.rx(1, query(M1, OWN, seq=9))
+    return Scenario(name, s.lines)
